@@ -92,10 +92,20 @@ def emitted_checks(rng, n, active):
             f = src.functions.get('ns_m_t%d_decode_inner' % i)
             if f is None:
                 raise cparse.CParseError('ns_m_t%d_decode_inner not generated' % i)
-            found = find_checks([s for s in f.body if s[0] != 'decl'], [])
+            body = [s for s in f.body if s[0] != 'decl']
+            found = find_checks(body, [])
             if len(found) > 1:
                 raise cparse.CParseError('several range checks in the decoder of a single %s' % kind)
-            cases.append((kind, lo, hi, found[0][1] if found else -1))
+            bound = found[0][1] if found else -1
+            if found and kind != 'enum':
+                # a check placed before "length += minimum" compares the raw field: bound = maximum - minimum
+                for st in body:
+                    if st[0] == 'if':
+                        bound += lo
+                        break
+                    if st[0] == 'expr' and st[1][0] == 'assign' and st[1][1] == '+=':
+                        break
+            cases.append((kind, lo, hi, bound))
     return cases
 
 
